@@ -19,7 +19,7 @@ def harnesses(tier):
     rx = DE + r'get_object\('
     d = {'GET_OBJECT': core.csym(FAM, rx), 'GETFUNOBJ': core.csym(FAM, DE + r'get_function_object_int\('),
          'MAPFIND': core.csym(FAM, r'std::map<std::__cxx11::basic_string<.*chaiscript::Boxed_Value, chaiscript::str_less.*>::find<std::basic_string_view')}
-    layouts = [(1, 1, 0, 0), (1, 2, 0, 0), (2, 1, 1, 0), (2, 0, 1, 0), (2, 1, 0, 0), (2, 2, 1, 0), (2, 1, 2, 0)] if tier == 'quick' else \
+    layouts = [(1, 1, 0, 0), (1, 2, 0, 0), (2, 1, 1, 0), (2, 0, 1, 0), (2, 1, 0, 0), (2, 2, 1, 0), (2, 1, 2, 0), (3, 1, 1, 0), (3, 1, 1, 1)] if tier == 'quick' else \
               [(1, 1, 0, 0), (1, 2, 0, 0), (1, 3, 0, 0), (2, 1, 1, 0), (2, 0, 1, 0), (2, 1, 0, 0), (2, 2, 1, 0), (2, 1, 2, 0), (2, 2, 2, 0), (3, 1, 1, 1), (3, 2, 0, 1), (3, 1, 2, 1), (3, 2, 2, 2)]
     QFM = r'chaiscript::utility::QuickFlatMap<std::__cxx11::basic_string<char, std::char_traits<char>, std::allocator<char> >, chaiscript::Boxed_Value, chaiscript::str_equal>::'
     cnt = core.find_symbols(FAM, '^unsigned long ' + QFM + r'count<std::basic_string_view')
